@@ -12,6 +12,34 @@ from checks import codech_util as cu
 
 
 def run(chk):
+    from checks import codec_common
+
+    def extra(c, by_prof):
+        # the integrator's strict RFC validator (Coq Spec, extracted) judges every encoded file
+        cases = [x for x in c.cases if x.get("kind") == "dec_stream" and x.get("src") == "encoder" and "expect" in x]
+        out = {"spec_stream_judged": 0, "spec_stream_failures": 0}
+        if not cases:
+            return out
+        res = codec_common.run_model(chk, "spec_stream", cases)
+        if res is None:
+            chk.notes.append("model kind spec_stream not available: %d encoded files were judged by the harness's independent decoder only" % len(cases))
+            return out
+        bad = 0
+        for x, r in zip(cases, res):
+            out["spec_stream_judged"] += 1
+            if r is None or r.get("end") != "ok":
+                bad += 1
+                if bad <= 3:
+                    chk.violation("spec-stream-rejects", "the model's strict RFC 9639 validator rejects a file the encoder produced: %s" % (r or {}).get("end"),
+                                  {"file_hex": x["bytes"], "expect": x["expect"], "cfg": x.get("cfg"), "model": r})
+            elif r.get("samples") != x["expect"]:
+                bad += 1
+                if bad <= 3:
+                    chk.violation("spec-stream-pcm", "the model's RFC 9639 decoder reconstructs different PCM from a file the encoder produced",
+                                  {"file_hex": x["bytes"], "expect": x["expect"], "model_samples": r.get("samples"), "cfg": x.get("cfg")})
+        out["spec_stream_failures"] = bad
+        return out
+
     cu.simple_check(
         chk, "C02", "c02", ["release"], kinds=["dec_stream", "dec_subset"],
         rule="one evaluation = one encoded file (or raw frame) judged by the independent decoder and the direct structural checks; distinct by (PCM shape x length x configuration x writer); non-trivial = the file holds at least one audio frame",
@@ -20,4 +48,5 @@ def run(chk):
             "the Coq Spec decoder (integrator) is the primary judge once available; until then the emitted cases are only produced, not diffed",
         ],
         evaluations=lambda s: cu.total(s, "files") + cu.total(s, "frames") + cu.total(s, "raw_stream_frames"),
-        nontrivial=lambda s: cu.total(s, "files") + cu.total(s, "raw_stream_frames"))
+        nontrivial=lambda s: cu.total(s, "files") + cu.total(s, "raw_stream_frames"),
+        extra=extra)
